@@ -133,6 +133,8 @@ def check(prog: Program, rep):
     c14.splice_rule(prog, px, "C14.R1")
     from rules.providers import given_weights_integral
     given_weights_integral(prog, rep, "C07.R8", ["kLeastAbsErrors"])
+    from rules.providers import given_weights_above_coefficient_threshold
+    given_weights_above_coefficient_threshold(prog, rep, "C07.R8", ["kLeastAbsErrors"])
     from rules.values import coefficients_converted
     coefficients_converted(prog, rep, "C07.R8", ["kLeastAbsErrors", "kLeastAbsErrorsCycles"])
     error_variables_rule(prog, rep, "C07.R8")
